@@ -276,11 +276,15 @@ def handleSchemaOp (j : Json) (op : Op) : R Json := do
     | _ => 200
   return encOut (run ext fuel op [] ty v)
 
-def handle (j : Json) : Json :=
+/-- handler of the schema operations; other models register their own in `Driver.lean` -/
+def schemaHandler (op : String) (j : Json) : Option (R Json) :=
+  (opOf op).map (handleSchemaOp j)
+
+def handleWith (handlers : List (String → Json → Option (R Json))) (j : Json) : Json :=
   let r : R Json := do
     let op ← getStr (← field j "op")
-    match opOf op with
-    | some o => handleSchemaOp j o
+    match handlers.findSome? (fun h => h op j) with
+    | some r => r
     | none => throw s!"unknown op {op}"
   match r with
   | .ok out => out
